@@ -4,7 +4,7 @@ class InducedSet:
 
   @property
   def induced_set(self):
-    if not self.is_connected:
+    if not self.is_connected():
       raise gfapy.RuntimeError(
         "Induced set cannot be computed\n"+
         "Line is not connected to a GFA instance\n"+
